@@ -7,6 +7,7 @@ package main
 import (
 	"fmt"
 	"go/constant"
+	"go/types"
 	"go/token"
 
 	"golang.org/x/tools/go/ssa"
@@ -68,6 +69,16 @@ func (p *Program) Reach(from []Loc, stop func(ssa.Instruction) bool) map[ssa.Ins
 // condition rules out (a nil test of a value that is never nil, such as a
 // freshly made error; a constant boolean).
 func (p *Program) feasibleSuccs(b *ssa.BasicBlock) []*ssa.BasicBlock {
+	return feasibleSuccsWith(b, func(v ssa.Value) bool { return p.definitelyNonNil(v, 0) })
+}
+
+// staticFeasibleSuccs: the same without knowledge about the callees (constant conditions and
+// tests repeated under a dominating branch only).
+func staticFeasibleSuccs(b *ssa.BasicBlock) []*ssa.BasicBlock {
+	return feasibleSuccsWith(b, func(ssa.Value) bool { return false })
+}
+
+func feasibleSuccsWith(b *ssa.BasicBlock, nonNil func(ssa.Value) bool) []*ssa.BasicBlock {
 	if len(b.Instrs) == 0 || len(b.Succs) != 2 {
 		return b.Succs
 	}
@@ -99,8 +110,34 @@ func (p *Program) feasibleSuccs(b *ssa.BasicBlock) []*ssa.BasicBlock {
 			if isNilConst(c) {
 				if isNilConst(a) {
 					val, known = x.Op == token.EQL, true
-				} else if p.definitelyNonNil(a, 0) {
+				} else if nonNil(a) {
 					val, known = x.Op == token.NEQ, true
+				}
+			}
+		}
+	}
+	if !known {
+		// the same test was made by a dominating branch whose taken side leads here
+		for d := b.Idom(); d != nil && !known; d = d.Idom() {
+			di, isIf := d.Instrs[len(d.Instrs)-1].(*ssa.If)
+			if !isIf || len(d.Succs) != 2 {
+				continue
+			}
+			dv, dneg := di.Cond, false
+			for {
+				if u, ok := dv.(*ssa.UnOp); ok && u.Op == token.NOT {
+					dv, dneg = u.X, !dneg
+					continue
+				}
+				break
+			}
+			if !sameTest(dv, v) {
+				continue
+			}
+			for k, su := range d.Succs {
+				if len(su.Preds) == 1 && (su == b || su.Dominates(b)) && d.Succs[1-k] != su {
+					// dv (after its negations) is true on edge 0
+					val, known = (k == 0) != dneg, true
 				}
 			}
 		}
@@ -449,4 +486,63 @@ func (pa *Path) decidedEarlier(p *Program, cond ssa.Value, at int) (bool, bool) 
 		return ((b.Op == token.EQL) == isNil) != neg, true
 	}
 	return false, false
+}
+
+// sameTest: two comparison instructions of the same operator over the same operands (go/ssa
+// does not share them).
+func sameTest(a, b ssa.Value) bool {
+	if a == b {
+		return true
+	}
+	x, ok1 := a.(*ssa.BinOp)
+	y, ok2 := b.(*ssa.BinOp)
+	if !ok1 || !ok2 || x.Op != y.Op {
+		return false
+	}
+	switch x.Op {
+	case token.EQL, token.NEQ, token.LSS, token.LEQ, token.GTR, token.GEQ:
+	default:
+		return false
+	}
+	same := func(u, v ssa.Value) bool {
+		if u == v {
+			return true
+		}
+		cu, ok1 := u.(*ssa.Const)
+		cv, ok2 := v.(*ssa.Const)
+		if ok1 && ok2 && types.Identical(cu.Type(), cv.Type()) {
+			if cu.Value == nil || cv.Value == nil {
+				return cu.Value == nil && cv.Value == nil
+			}
+			return constant.Compare(cu.Value, token.EQL, cv.Value)
+		}
+		return false
+	}
+	return same(x.X, y.X) && same(x.Y, y.Y)
+}
+
+// feasDominates: every path from the entry to b over feasible edges passes a.
+func (p *Program) feasDominates(a, b *ssa.BasicBlock) bool {
+	if a == b || a.Dominates(b) {
+		return true
+	}
+	fn := b.Parent()
+	seen := map[*ssa.BasicBlock]bool{a: true}
+	work := []*ssa.BasicBlock{fn.Blocks[0]}
+	if fn.Blocks[0] == a {
+		return true
+	}
+	for len(work) > 0 {
+		x := work[len(work)-1]
+		work = work[:len(work)-1]
+		if seen[x] {
+			continue
+		}
+		seen[x] = true
+		if x == b {
+			return false
+		}
+		work = append(work, p.feasibleSuccs(x)...)
+	}
+	return true
 }
